@@ -14,7 +14,7 @@ Definition mid := (mclass * name)%type.
 Definition mclass_eqb (a b : mclass) : bool :=
   match a, b with
   | CSecd, CSecd | CXpec, CXpec | CXpecBase, CXpecBase | CExecBase, CExecBase
-  | CEngine, CEngine | CTransformer, CTransformer => true
+  | CEngine, CEngine | CTransformer, CTransformer | CVarStack, CVarStack | CCounters, CCounters => true
   | _, _ => false
   end.
 
@@ -104,7 +104,17 @@ Definition audit : list (mid * cat) := [
   ((CTransformer, "m_outputEncoding"), Sticky);
   ((CTransformer, "m_poolAllTextNodes"), Sticky);
   ((CTransformer, "m_topXObjectFactory"), Constant);       (* owned factory of parameter values; reset by clearStylesheetParams *)
-  ((CTransformer, "m_stylesheetExecutionContext"), Constant) (* the long-lived context itself *)
+  ((CTransformer, "m_stylesheetExecutionContext"), Constant); (* the long-lived context itself *)
+  (* VariablesStack (StylesheetExecutionContextDefault::m_variablesStack) *)
+  ((CVarStack, "m_stack"), PerTransformation);
+  ((CVarStack, "m_globalStackFrameIndex"), PerTransformation);
+  ((CVarStack, "m_globalStackFrameMarked"), PerTransformation);
+  ((CVarStack, "m_currentStackFrameIndex"), PerTransformation); (* brought back to 0 by the pop() loop of reset() (anchored) *)
+  ((CVarStack, "m_guardStack"), PerTransformation);
+  ((CVarStack, "m_elementFrameStack"), PerTransformation);
+  (* CountersTable (StylesheetExecutionContextDefault::m_countersTable) *)
+  ((CCounters, "m_countersVector"), PerTransformation);
+  ((CCounters, "m_newFound"), PerTransformation)
 ].
 
 (* XSLTEngineImpl is an automatic object of doTransform (translator anchor): every member is StackObject *)
@@ -143,6 +153,9 @@ Definition chain_cleared : list mid :=
            ++ (if mem_str "clearXPathCache" secd_cleanup_calls then map (pair CSecd) secd_clearxpathcache_clears else [])
       else [])
   ++ (if mem_str "m_xpathExecutionContextDefault" secd_reset_clears then map (pair CXpec) xpec_reset_clears else [])
+  ++ (if mem_str "m_variablesStack" secd_reset_clears then map (pair CVarStack) varstack_reset_clears else [])
+  ++ (if mem_str "cleanUpTransients" secd_reset_calls && mem_str "m_countersTable" secd_cleanup_clears
+      then map (pair CCounters) counters_reset_clears else [])
   ++ (if ensure_reset_dtor_resets_transformer then transformer_reset_nulls else []).
 
 (* ~EnsureReset really reaches StylesheetExecutionContextDefault::reset() *)
